@@ -298,6 +298,9 @@ type vfServerScript struct {
 	FaultFor string `json:"faultFor"` // only for instances whose "<protocol>/<version>/<tls>" matches ("" = all)
 	After    int    `json:"after"`
 	HTTPLog  bool   `json:"httpLog"` // parse an HTTP/1.1 request on each connection and log its test name
+	// StopDelayMs: a well-behaved but slow server - it takes that long (well inside the runner's graceful-shutdown
+	// period) to log its stop and exit after having been asked to
+	StopDelayMs int `json:"stopDelayMs"`
 }
 
 func vfPeerServerMain() int {
@@ -385,6 +388,24 @@ func vfPeerServerMain() int {
 				return 9
 			}
 		}
+	}
+	if script.StopDelayMs > 0 {
+		// servers started at odd positions of the run stop quickly, the others slowly: two servers that are up at the
+		// same time and are asked to stop at the same moment are not gone at the same moment
+		nth := 0
+		for _, ev := range vfReadPeerLog(os.Getenv("VERIF_PEER_LOG")) {
+			if ev.Event == "server-start" {
+				nth++
+				if ev.Identity == identity {
+					break
+				}
+			}
+		}
+		delay := time.Duration(script.StopDelayMs) * time.Millisecond
+		if nth%2 == 1 {
+			delay /= 6
+		}
+		time.Sleep(delay)
 	}
 	vfPeerLog(vfPeerEvent{Event: "server-stop", Port: port, Identity: identity, Name: "sigterm"})
 	_ = lis.Close()
